@@ -401,6 +401,23 @@ class Check:
         return rc
 
 
+def drop_partial_lines(files):
+    """After a harness crash the last line of a trace file may be incomplete: cut it off."""
+    out = []
+    for f in files:
+        try:
+            with open(f, "rb+") as fh:
+                data = fh.read()
+                if data and not data.endswith(b"\n"):
+                    i = data.rfind(b"\n")
+                    fh.seek(0); fh.truncate(); fh.write(data[:i + 1] if i >= 0 else b"")
+            if os.path.getsize(f) > 0:
+                out.append(f)
+        except OSError:
+            pass
+    return out
+
+
 def split_file_lines(path, nparts, outdir, prefix, max_lines=50000):
     """Split an ndjson file into roughly equal batches (each <= max_lines)."""
     with open(path) as f:
